@@ -1,7 +1,8 @@
 """C02 - Optimal exactly when a feasible matching exists; never errors."""
 import random
 
-from .. import harness, lpchecks, shapes
+from .. import harness, lpchecks, shapes, e1, e2, spec, replay as rp
+from ..spec import P
 from ..lpchecks import SINGLES
 from ._lpcommon import FUNCTIONS, BASE_ASSUMPTIONS, EXTRA
 
@@ -53,13 +54,97 @@ def tasks(tier, seed):
                 forms = ['noexc', 'feas'] + (['valid'] if len(s) <= 1 else [])
                 out.append({'prop': ID, 'shape': lpchecks.shape_data(I), 'flags': flags, 'seq': s,
                             'forms': forms, 'wf': True})
+    # translation validation of the PuLP stand-in + end-to-end text oracle on real PuLP objects (E1)
+    ntv = 120 if tier == 'quick' else 1200
+    for i in range(ntv):
+        I = shs[i % len(shs)]
+        plq = [rng.choice([0, 0, 1, 2]) for _ in range(I.np)]
+        puq = [max(q, rng.choice([0, 1, 2, 3])) for q in plq]
+        if I.na == 3:
+            llq = [rng.choice([0, 0, 1]) for _ in range(I.nl)]
+            lt = [max(q, rng.choice([0, 1, 2])) for q in llq]
+            luq = [max(q, rng.choice([1, 2, 3])) for q in lt]
+        else:
+            llq, lt, luq = list(plq), list(puq), list(puq)
+        flags = rng.choice(lpchecks.flag_sets_for(I))
+        k = rng.choice([0, 1, 1, 2, 2, 3])
+        seq = rng.sample(SINGLES + EXTRA, k)
+        if not lpchecks.admissible(I, seq):
+            seq = seq[:1] if lpchecks.admissible(I, seq[:1]) else []
+        out.append({'kind': 'tv', 'shape': lpchecks.shape_data(I), 'num': [plq, puq, llq, lt, luq], 'flags': flags, 'seq': seq,
+                    'argv_seq': lpchecks.gapped_argv(seq, rng), 'forms': ['tv']})
     return out
 
 
-run_task = lpchecks.analyse
+def tv_task(task):
+    res = {'obligations': 0, 'discharged': 0, 'unknown': 0, 'cex': [], 'queries': 0, 'solver_time': 0.0,
+           'paths': 1, 'nontrivial': 1, 'controls': {}}
+    I = lpchecks.shape_from(task['shape']).with_numerics(*task['num'])
+    flags, av = task['flags'], task['argv_seq']
+    real = e1.run_real(I, flags, av)
+    sh = e1.run_shim(I, flags, av)
+    res['controls']['tv_programs'] = len(real['problems'])
+    if (real['exc'] is None) != (sh['exc'] is None):
+        raise RuntimeError('translation validation: real PuLP run %r vs stand-in run %r' % (real['exc'], sh['exc']))
+    d = e1.diff(real['problems'], sh['problems'])
+    if d is not None:
+        raise RuntimeError('translation validation: the PuLP stand-in disagrees with real PuLP: %s (argv %s %s)' % (d, flags, av))
+    res['controls']['must_tv_agree'] = 1
+    # end-to-end oracle on the text produced by the real pipeline (z3 back end on real PuLP objects)
+    bad, what, detail = judge(I, flags, task['seq'], real)
+    res['obligations'] += 1
+    if bad:
+        res['cex'].append({'tag': 'e1/%s' % what, 'what': 'real pipeline (z3 back end): ' + detail.split('\n')[-1],
+                           'form': 'e1', 'data': {k: task[k] for k in ('shape', 'num', 'flags', 'seq', 'argv_seq')}})
+    else:
+        res['discharged'] += 1
+    res['sample'] = {'tv': True, 'flags': flags, 'argv': av, 'solves': len(real['problems'])}
+    return res
+
+
+def judge(I, flags, seq, out):
+    Id = I if 'twopl' in flags else spec.Inst(I.na, I.ns, I.np, I.nl, I.prefs, I.plec, None, I.plq, I.puq, I.llq, I.lt, I.luq)
+    pcf, stab = 'pc' in flags, 'stab' in flags
+    fs = spec.feasible_set(Id, pcf, stab)
+    hdr = 'instance:\n%sargv %s %s\n' % (spec.inst_to_text(I, trailer=False), flags, out.get('argv', ''))
+    if out['exc']:
+        return True, 'raises', hdr + 'raised ' + out['exc']
+    pr = rp.parse_results(out['text'])
+    if not fs:
+        ok = pr['status'] == 'Infeasible' and pr['matching'] is None
+        return (not ok), 'status', hdr + 'no feasible matching exists; reported status %s, matching %s' % (pr['status'], pr['matching'])
+    if pr['status'] != 'Optimal' or pr['matching'] is None:
+        return True, 'status', hdr + '%d feasible matchings exist; reported status %s' % (len(fs), pr['status'])
+    x = spec.x_from_matching_line(Id, pr['matching'])
+    if x is None or not spec.feasible(Id, x, pcf, stab, P):
+        return True, 'matching', hdr + 'reported matching %s does not satisfy the requested constraints' % pr['matching']
+    seq = [(c_, list(a_)) for c_, a_ in seq]
+    if seq:
+        best = spec.best_key(Id, pcf, stab, seq)
+        mine = tuple(spec.seq_key(Id, x, seq, P))
+        if mine != best:
+            return True, 'optimum', hdr + 'reported matching %s has measure vector %s, optimum %s' % (pr['matching'], mine, best)
+    return False, 'ok', hdr + 'ok'
+
+
+def run_task(task):
+    if task.get('kind') == 'tv':
+        return tv_task(task)
+    return lpchecks.analyse(task)
+
+
+def replay(cex):
+    if cex.get('form') == 'e1':
+        d = cex['data']
+        I = lpchecks.shape_from(d['shape']).with_numerics(*d['num'])
+        out = rp.real_solve(I, set(d['flags']), d['argv_seq'])
+        bad, what, detail = judge(I, d['flags'], d['seq'], out)
+        return bad, 'real PuLP + CBC: ' + detail
+    return lpchecks.replay_cex(cex)
+
+
 describe_task = lpchecks.describe_task
 task_cost = lpchecks.task_cost
-replay = lpchecks.replay_cex
 
 if __name__ == '__main__':
     raise SystemExit(harness.main(__import__('sys').modules[__name__]))
